@@ -211,7 +211,7 @@ def map_expr(e, f):
     elif t == "CL":
         r = ("CL", e[1], tuple(map_expr(a, f) for a in e[2]))
     elif t == "PHI":
-        r = ("PHI", e[1], tuple((p, map_expr(v, f)) for (p, v) in e[2]), e[3])
+        r = mk_phi(e[1], tuple((p, map_expr(v, f)) for (p, v) in e[2]), e[3])
     elif t in ("UPD", "UPDF"):
         r = (t, map_expr(e[1], f), e[2], e[3])
     elif t == "WITH":
@@ -332,7 +332,8 @@ def walk(e):
 
 
 class VF:
-    def __init__(self, body, inline_depth=3, params=None, stack=()):
+    def __init__(self, body, inline_depth=3, params=None, stack=(), opaque_loops=False):
+        self.opaque_loops = opaque_loops
         self.body = body
         self.facts = body.facts
         self.depth = inline_depth
@@ -468,6 +469,11 @@ class VF:
             r = ("UNINIT", l)
         else:
             r = mk_phi(bb, tuple(real), self.body.key)
+        if header and self.opaque_loops and any(x[0] == "LOOP" and x[1] == l and x[2] == bb for x in walk(r)):
+            # loop-carried variable: symbolic at the header (its initial and step values are given by loop_def)
+            r = ("LOOP", l, bb)
+            self._entry[key] = r
+            return r
         if not header:
             if self._stack2.get(key, 0) > 0:
                 return r          # computed while re-entered inside a loop walk: query-local
@@ -476,6 +482,18 @@ class VF:
                     return r
         self._entry[key] = r
         return r
+
+    def loop_def(self, l, header):
+        """(initial values, step values) of local l at a loop header, each a list of (pred, expr); in the step values the
+        variable's value at the start of the iteration is the marker LOOP(l, header). Use with opaque_loops=True."""
+        init, step = [], []
+        reach = self.body.reachable()
+        for p in self.body.pred[header]:
+            if p not in reach:
+                continue
+            val = self.local_at_exit(l, p, header)
+            (step if self.body.dominates(header, p) else init).append((p, val))
+        return init, step
 
     def mut_roots(self, call):
         """{local: path} for locals passed (directly or through single-def ref temporaries)
